@@ -415,6 +415,37 @@ def get_coordinates(geoms, **kw):
     return out
 
 
+class TransformedGeom:
+    """shapely.transform(geometry, function): another geometry (its coordinates are the function's business, not modelled)"""
+    _pyvc_model_class = True
+
+    def __init__(self, source, fn):
+        self.source, self.fn = source, fn
+        self.z = z3.FreshConst(GeomSort, 'transformed')
+
+    @property
+    def term(self):
+        return self.z
+
+    @property
+    def __geo_interface__(self):
+        return {'type': 'Polygon', 'coordinates': TransformedCoords(self)}
+
+
+class TransformedCoords:
+    _pyvc_model_class = True
+
+    def __init__(self, geom):
+        self.geom = geom
+
+
+@model
+def transform(geometry, transformation, **kw):
+    used('SH-TRANSFORM')
+    core.ctx().event('shapely.transform', geometry)
+    return TransformedGeom(geometry, transformation)
+
+
 @model
 def points(coords, y=None, **kw):
     """SH-POINTS: shapely.points(array of shape (n, 2)) = n point geometries, row p at (x_p, y_p); the point is a function of its two
@@ -486,6 +517,7 @@ class ShapelyModule:
     _pyvc_model_class = True
     polygons = staticmethod(polygons)
     points = staticmethod(points)
+    transform = staticmethod(transform)
     get_num_coordinates = staticmethod(get_num_coordinates)
     convex_hull = staticmethod(convex_hull)
     get_coordinates = staticmethod(get_coordinates)
